@@ -1,6 +1,6 @@
 (** C01 — attribution soundness.  Theorems only. *)
 From Coq Require Import List ZArith Bool.
-From TR Require Import Lib.Bytes Wire.Decode Drv.Drivers Spec.C01 Proofs.DrvProofs Eng.Engine Eng.Timed Spec.C03 Proofs.EngCorollaries.
+From TR Require Import Lib.Bytes Wire.Decode Drv.Drivers Spec.C01 Proofs.DrvProofs Eng.Engine Eng.Timed Spec.C03 Proofs.EngCorollaries Proofs.EngComplete Proofs.EngIso.
 Import ListNotations.
 Open Scope Z_scope.
 
@@ -36,3 +36,10 @@ Proof.
   exists s, hs. split; [exact H1|]. split; [exact H2|]. intros i h a Hn Ha. eapply sh_backed; eauto.
 Qed.
 Print Assumptions C01_run_hops_backed.
+
+(** ... and every accepted reply is one of the entries the driver matched (never a noise entry), for ANY script *)
+Theorem C01_accepted_replies_come_from_matches : forall p script r,
+  parallel_run p script = TDone r ->
+  forall q, In q (tr_accepted r) -> exists e, In e script /\ e_kind e <> 1 /\ matches e q.
+Proof. exact parallel_accepts_only_script_replies. Qed.
+Print Assumptions C01_accepted_replies_come_from_matches.
